@@ -118,6 +118,7 @@ type workItem struct {
 }
 
 type Explorer struct {
+	pops        int
 	sh          *Shared
 	workers     []*Worker
 	mu          sync.Mutex
@@ -693,7 +694,17 @@ func (e *Explorer) pop() (workItem, bool) {
 			return workItem{}, false
 		}
 		if n := len(e.queue); n > 0 {
-			it := e.queue[n-1]
+			// depth first (the frontier stays small), but every 8th item is the
+			// oldest one: the shallowest open alternative, so that an exploration
+			// that hits its budget has sampled every top-level region of the
+			// input space rather than exhausted the last one
+			e.pops++
+			k := n - 1
+			if e.pops%8 == 0 {
+				k = 0
+			}
+			it := e.queue[k]
+			copy(e.queue[k:], e.queue[k+1:])
 			e.queue = e.queue[:n-1]
 			e.active++
 			return it, true
